@@ -537,6 +537,25 @@ def work_files(item):
           r = call(fn)
           note(res, found, r, "file:" + name, repr(data), vlevel, version,
                "standard")
+    # the same files read with progress logging switched on (its options
+    # take part in reading: part = 0 means "report at every line"); then the
+    # operations that report progress
+    import io
+    for name, data in FILE_VARIANTS:
+      p = os.path.join(d, name + ".gfa")
+      with open(p, "wb") as f:
+        f.write(data)
+      for part in (0, 0.1, 0.5, 1, 2):
+        res["evaluations"] += 1
+        def fn2():
+          g = gfapy.Gfa(vlevel=1)
+          g.enable_progress_logging(part=part, channel=io.StringIO())
+          g.read_file(p)
+          g.merge_linear_paths()
+          str(g)
+        r = call(fn2)
+        note(res, found, r, "file-progress:{}:{}".format(part, name),
+             repr(data), 1, None, "standard")
     # missing file: OSError is the documented behaviour of open(); not judged
     # bin/gfapy-validate: exit status 0 or 1 with an error message, never a
     # traceback of a foreign exception
